@@ -84,7 +84,8 @@ def check_recursion(fx, rep, rule, seen):
             b = fx.bodies[p]
             n += 1
             key = "%s/recursion/%s" % (rule, C.short_fn(p))
-            sy = S.Sym(fx, inline_mut=True)
+            # functions outside the cycle stay opaque: only the calls among cycle members matter here
+            sy = S.Sym(fx, inline_mut=True, opaque=lambda q, cset=cset: q not in cset)
             try:
                 res = sy.eval_body(b)
             except S.Undecidable as e:
